@@ -122,6 +122,26 @@ def _table(e):
   return _literal(e)
 
 
+def _const_dict(e, tree, name):
+  """a dict display of plain dotted names / constants that nothing in the module
+  ever changes through that name: a lookup table"""
+  if not (isinstance(e, ast.Dict) and e.keys and all(
+      k is not None and _table(k) and _table(v) and not isinstance(k, ast.Tuple)
+      for k, v in zip(e.keys, e.values))):
+    return False
+  for n in ast.walk(tree):
+    if isinstance(n, ast.Attribute) and n.attr == name and not isinstance(n.ctx, ast.Load):
+      return False
+    if isinstance(n, ast.Call) and isinstance(n.func, ast.Attribute) and n.func.attr in (
+        'update', 'pop', 'clear', 'setdefault', 'popitem', '__setitem__') and isinstance(
+            n.func.value, ast.Attribute) and n.func.value.attr == name:
+      return False
+    if isinstance(n, ast.Subscript) and not isinstance(n.ctx, ast.Load) and isinstance(
+        n.value, ast.Attribute) and n.value.attr == name:
+      return False
+  return True
+
+
 def inline_new_class_constants(tree, rel):
   """A private class attribute the reference tree does not have, bound once in
   the class body to a literal table and never assigned through self / the class:
@@ -139,7 +159,8 @@ def inline_new_class_constants(tree, rel):
           s.targets[0], ast.Name):
         n = s.targets[0].id
         if n.startswith('_') and not n.startswith('__') and (c.name + '.' + n) not in ka \
-            and _table(s.value) and isinstance(s.value, ast.Tuple):
+            and ((_table(s.value) and isinstance(s.value, ast.Tuple)) or
+                 _const_dict(s.value, tree, n)):
           consts[n] = s.value
     for n in ast.walk(tree):
       if isinstance(n, ast.Attribute) and n.attr in consts and not isinstance(n.ctx, ast.Load):
@@ -849,6 +870,22 @@ class _Rename(ast.NodeTransformer):
       return copy.deepcopy(self.subst[n.id])
     if n.id in self.mapping:
       return ast.copy_location(ast.Name(id=self.mapping[n.id], ctx=n.ctx), n)
+    return n
+
+  def visit_Lambda(self, n):
+    # the parameters of a lambda are its own names
+    own = {a.arg for a in n.args.posonlyargs + n.args.args + n.args.kwonlyargs}
+    if n.args.vararg:
+      own.add(n.args.vararg.arg)
+    if n.args.kwarg:
+      own.add(n.args.kwarg.arg)
+    saved = (self.mapping, self.subst)
+    self.mapping = {k: v for k, v in self.mapping.items() if k not in own}
+    self.subst = {k: v for k, v in self.subst.items() if k not in own}
+    try:
+      self.generic_visit(n)
+    finally:
+      self.mapping, self.subst = saved
     return n
 
   def visit_Call(self, n):
